@@ -21,23 +21,36 @@ from tools.gen import luagen
 LEVEL = "proof"
 MANIFEST = dict(
     category="proof",
-    text="Lean 4 theorems over a model of wrapl.Wrapl.wrap_function/do_function (all_calls, by_count, the emitted "
-         "switch/if-chain, pop indices, result counts) and of what the emitted skeleton does on a Lua stack: for every "
-         "overload set with at least two calls, every kind (free function, constructor, method, destructor) and every "
-         "stack the call made is the first signature in declaration order whose Lua tags equal the arguments', with the "
-         "stack values in order (methods: above the object) and that overload's result count, otherwise luaL_error and no "
-         "call; indistinguishable overloads: earlier wins. For names with a single call the emitted code tests nothing: "
-         "proved for stacks of the declared shape only (_partial) with a negation witness for the rest (open finding). "
-         "Model tied to wrapl.py on every run by parsing the emitted text of generated libraries and by running the "
-         "compiled binding on a Lua C-API emulator; the same runs are judged by an implementation-only oracle.",
+    text="Lean 4 theorems (31, no hypotheses on size) over a hand model of wrapl.Wrapl.wrap_function/do_function/wrap_functions "
+         "(all_calls = one call per overload and per omitted-default prefix, by_count, the emitted switch/if-chain with its lua_type "
+         "tests, pop indices, object index, result counts, luaL_Reg tables) and of what the emitted skeleton does on a Lua stack. "
+         "dispatch_correct: for EVERY Lua name (one signature or many; free function, constructor, method, destructor), every "
+         "overload set with at most one argument-less signature, every object test and every stack, the call made is the first "
+         "signature in declaration order whose Lua tags equal the arguments', with the stack values in order (methods: above the "
+         "object at index 1) and that overload's own result count; otherwise luaL_error and no call (never_a_wrong_call, "
+         "no_match_is_an_error, single_call_checked); overloads with equal tags: earlier wins, every distinguishable signature is "
+         "reached. Registration: every ast.name is gathered into one group/C function/table entry (groups_*), a Lua name reaches "
+         "its own C function iff names in the table are distinct, otherwise the later entry wins (lookupReg_*, classRegs_reaches); "
+         "objects: a constructor's userdata passes the object test of its own class only (method_on_constructed / "
+         "method_on_foreign_object), any number of __gc calls runs the destructor once (gc_runs_destructor_once). No _partial "
+         "statement is left; *_before_fix / old_* theorems are negation witnesses for the bodies written before the fix: commits.",
     design="3 C18",
-    note="Trusted: Lean kernel; the hand-written model; the Lua C-API emulator tools/ccheck/luaemu (no real Lua headers or "
-         "interpreter are installed: lua_type/lua_to*/luaL_checkudata semantics are taken from the Lua 5.3 manual); g++ on the "
-         "emitted text. Subset: scalar/bool/std::string arguments and results, classes with ctor/dtor/methods, overloads, "
-         "trailing defaults. Not covered: char* (no lua_statements entry: the emitted code does not compile or omits the call), "
-         "class-typed arguments, intent(out) arguments.",
-    technique="Lean 4 proof (induction over the call list) + differential correspondence on emitted text and on the compiled "
-              "binding driven through a C emulator of the Lua API",
+    note="Ties, every run: (T) typemap LUA_type/LUA_pop/LUA_push and the lua_statements rows of the admitted subset; (D1) the "
+         "dispatch skeleton of every Lua name parsed from the text the real Wrapl emits (case labels, if-chains, tested indices and "
+         "tags, pop index per call argument, object index, result counts, else/default luaL_error, dtor body) == Lean `gen`; (D2) "
+         "the luaL_Reg tables parsed from the text == Lean moduleRegs/classRegs computed from Shroud's JSON dump; (D3) the outcome of "
+         "the compiled binding on the emulator == Lean `run`. Oracle (no model): the binding compiled with g++ against "
+         "tools/ccheck/luaemu and an instrumented library, called with every offered signature (every arity from the first default "
+         "to all parameters), one-tag-off variants at every position, wrong counts, random shapes, wrong/foreign/missing objects, "
+         "__gc twice; verdict from the declarations in Python. Generated libraries: 0..6 parameters of mixed tags, defaults starting "
+         "at every position, std::string defaults, overloads incl. same-tag and void/non-void mixes, classes with overloaded "
+         "constructors, const/static methods, a namespace. Trusted / modelled-not-verified: Lean kernel; the hand model; the "
+         "emulator (written from the Lua 5.3 manual; no real Lua headers or interpreter installed); g++ (which C++ overload the "
+         "emitted call selects is observed, not modelled); the JSON dump as the source of ast.name/LUA_name/LUA_name_impl. Not "
+         "covered: char* (no lua_statements entry), class-typed arguments (unimplemented in wrapl.py, open C05 finding), "
+         "intent(out) arguments; equal Lua names from different scopes are characterised (later wins), not prevented.",
+    technique="Lean 4 proof (induction over the call list / registration list) + differential correspondence on emitted text, on "
+              "registration tables and on the compiled binding driven through a C emulator of the Lua API",
 )
 MODULES = ["ShroudVerif.Props.C18"]
 THEOREMS = {
@@ -46,10 +59,7 @@ THEOREMS = {
         "Shroud.LuaDispatch.luaCalls_full",
         "Shroud.LuaDispatch.luaCalls_nresults",
         "Shroud.LuaDispatch.dispatch_correct",
-        "Shroud.LuaDispatch.single_call_unchecked",
-        "Shroud.LuaDispatch.single_call_matching",
-        "Shroud.LuaDispatch.dispatch_correct_partial",
-        "Shroud.LuaDispatch.single_call_full_statement_false",
+        "Shroud.LuaDispatch.single_call_checked",
         "Shroud.LuaDispatch.never_a_wrong_call",
         "Shroud.LuaDispatch.no_match_is_an_error",
         "Shroud.LuaDispatch.indistinguishable_earlier_wins",
@@ -59,6 +69,23 @@ THEOREMS = {
         "Shroud.LuaDispatch.idxFrom_get",
         "Shroud.LuaDispatch.argument_read_from",
         "Shroud.LuaDispatch.zero_arg_calls_both_run",
+        # registration and objects
+        "Shroud.LuaDispatch.groups_cover",
+        "Shroud.LuaDispatch.groups_names_nodup",
+        "Shroud.LuaDispatch.groups_head",
+        "Shroud.LuaDispatch.lookupReg_none",
+        "Shroud.LuaDispatch.lookupReg_of_nodup",
+        "Shroud.LuaDispatch.lookupReg_later_wins",
+        "Shroud.LuaDispatch.mem_classRegs",
+        "Shroud.LuaDispatch.classRegs_reaches",
+        "Shroud.LuaDispatch.ctor_value_accepted",
+        "Shroud.LuaDispatch.ctor_value_rejected",
+        "Shroud.LuaDispatch.method_on_constructed",
+        "Shroud.LuaDispatch.method_on_foreign_object",
+        "Shroud.LuaDispatch.gc_runs_destructor_once",
+        # historical negation witnesses (bodies written before the fix: commits)
+        "Shroud.LuaDispatch.single_call_unchecked_before_fix",
+        "Shroud.LuaDispatch.single_call_statement_false_before_fix",
         "Shroud.LuaDispatch.old_method_dispatch_wrong",
         "Shroud.LuaDispatch.old_method_single_reads_object",
     ]
@@ -138,7 +165,8 @@ def parse_emit(blk, group):
     if group.kind == "ctor":
         calls = re.findall(r"new (?:\w+::)*%s\(([^()]*)\)" % re.escape(group.cls), blk)
     elif group.kind == "dtor":
-        calls = re.findall(r"delete SH_this->self()", blk)
+        # the pointer is cleared after the delete: a second __gc deletes NULL
+        calls = re.findall(r"delete SH_this->self; SH_this->self = NULL;()", blk)
     elif group.kind == "method":
         calls = re.findall(r"SH_this->self->%s\(([^()]*)\)" % re.escape(fn0.name), blk)
     else:
@@ -259,6 +287,77 @@ def locate(group, regs, metas, modreg):
     if len(hits) != 1:
         return None, None
     return hits[0], (metas.get(table) if group.kind in ("method", "dtor") else None)
+
+
+def registration_request(jpath):
+    """From Shroud's JSON dump: the `regs` request for the Lean driver and the id -> string table."""
+    j = json.load(open(jpath))["library"]
+    ids = {"__gc": 0}
+
+    def I(x):
+        return ids.setdefault(x, len(ids))
+
+    def fn(f, firsts):
+        a = f["ast"].get("attrs", {})
+        k = "c" if a.get("_constructor") else "d" if a.get("_destructor") else None
+        fd = f.get("fmtdict", {})
+        nm = fd.get("function_name") or a.get("_name") or f["ast"].get("declarator", {}).get("name")
+        return nm, fd.get("LUA_name"), fd.get("LUA_name_impl"), k
+
+    def fns(lst, in_class):
+        out = []
+        for f in lst:
+            if not f.get("wrap", {}).get("lua"):
+                continue
+            nm, lua, impl, k = fn(f, None)
+            k = k or ("m" if in_class else "f")
+            out.append("%d.%d.%d.%s" % (I(nm), I(lua or "?" + nm), I(impl or "?impl" + nm + str(len(out))), k))
+        return ",".join(out) or "-"
+
+    scopes = []
+
+    def walk(node):
+        cls = []
+        for c in node.get("classes", []):
+            if not c.get("wrap", {}).get("lua"):
+                continue
+            cls.append("%d@%s" % (I(c["fmtdict"].get("LUA_ctor_name", c["name"])), fns(c.get("functions", []), True)))
+        scopes.append("%s#%s" % (";".join(cls) or "-", fns(node.get("functions", []), False)))
+        for ns in node.get("namespaces", []):
+            if ns.get("wrap", {}).get("lua"):
+                walk(ns)
+
+    walk(j)
+    return "regs " + "/".join(scopes), {v: k for k, v in ids.items()}
+
+
+def check_registration(ctx, lib, d, regs, modreg, drv, stats):
+    req, names = registration_request(os.path.join(d, lib.name + ".json"))
+    out = drv.run([req])[0]
+    ctx.count(1)
+
+    def dec(t):
+        t = t.split("=", 1)[1]
+        return [] if t == "-" else [(names[int(a)], names[int(b)]) for a, b in (p.split(">") for p in t.split(","))]
+
+    parts = out.split(" ")
+    model_mod = dec(parts[0])
+    model_cls = [dec(p) for p in parts[1:]]
+    real_mod = [tuple(x) for x in regs.get(modreg, [])]
+    real_cls = [[tuple(x) for x in v] for k, v in regs.items() if k != modreg]
+    stats["reg_tables"] += 1 + len(real_cls)
+    stats["reg_entries"] += len(real_mod) + sum(len(c) for c in real_cls)
+    if model_mod != real_mod or model_cls != real_cls:
+        ctx.tie_broken("lua-registration-tables", {"library": lib.name, "model": [model_mod] + model_cls,
+                                                   "emitted": [real_mod] + real_cls})
+    # every Lua name once per table (the generator gives distinct names: a duplicate is the wrapper's doing)
+    for t in [real_mod] + real_cls:
+        ns = [n for n, _ in t]
+        dup = sorted(set(n for n in ns if ns.count(n) > 1))
+        if dup:
+            ctx.fail("duplicate-registration:%s:%s" % (lib.name, ",".join(dup)),
+                     "Lua name(s) %s registered more than once in one table: the earlier C function is unreachable" % dup,
+                     {"yaml": lib.yaml(), "header": lib.header()})
 
 
 # ====================================================================== Lua semantics used by the expectation
@@ -527,6 +626,9 @@ def plan_library(r, lib, located, thorough):
         h, oid = objs[g.cls]
         plan.add("callm %s __gc o:%d" % (meta_name, h),
                  dict(group=g, vals=[], selfv=("o", h, oid, g.cls), exp=expect_call(g, [])))
+        # a second __gc on the same userdata must not run the destructor again
+        plan.add("callm %s __gc o:%d" % (meta_name, h),
+                 dict(group=g, vals=[], selfv=("o", h, oid, g.cls), exp=expect_call(g, []), again=True))
     return plan
 
 
@@ -539,6 +641,11 @@ def judge(meta, ans):
     """Property C18 on one call, from the declarations only.  Returns None or (key kind, text)."""
     g = meta["group"]
     exp = meta["exp"]
+    if meta.get("again"):
+        if ans["status"] == "ok" and not ans.get("trace") and ans.get("n") == "0" and ans.get("pushed") == "0":
+            return None
+        return ("gc-twice", "a second __gc on the same object: expected no destructor call and no result, got %s %s" % (
+            ans["status"], ans.get("trace")))
     single = len(g.all_calls()) == 1
     needs_self = g.kind in ("method", "dtor")
     must_error = exp is None or (needs_self and not self_ok(meta))
@@ -622,6 +729,8 @@ def model_request(meta, classes):
 def model_vs_observed(meta, ans, mline, stack_vals):
     """Compare the Lean `run` outcome with what the compiled binding did.  None or a text."""
     g = meta["group"]
+    if meta.get("again"):
+        return None                     # object state is not part of `run` (Lean: gc_runs_destructor_once)
     parts = mline.split(" ")
     st = ans["status"]
     trace = ans.get("trace", [])
@@ -757,6 +866,11 @@ def check_library(ctx, lib, d, emu_o, drv, r, thorough, stats, ok_lean):
     ctx.count(len(gen_reqs))
     stats["groups"] += len(gen_reqs)
     if drv.available() and ok_lean:
+        try:
+            check_registration(ctx, lib, d, regs, modreg, drv, stats)
+        except (KeyError, ValueError, OSError, IndexError) as e:
+            ctx.tie_broken("lua-registration-tables", "%s: %s: %s" % (lib.name, type(e).__name__, e))
+    if drv.available() and ok_lean:
         model = drv.run(gen_reqs)
         dis = [{"library": lib.name, "name": g.luaname, "request": q, "emitted": a, "model": b}
                for g, q, a, b in zip(gen_groups, gen_reqs, gen_impl, model) if a != b]
@@ -813,6 +927,8 @@ def check_library(ctx, lib, d, emu_o, drv, r, thorough, stats, ok_lean):
             ctx.nontrivial("call:%s:%s:%s" % (g.kind, g.enc(), ",".join(tag_of(v) for v in meta["vals"])))
         else:
             stats["nonmatching"] += 1
+        if meta.get("again"):
+            stats["gc_twice"] += 1
         verdict = judge(meta, ans)
         if verdict:
             kind, what = verdict
@@ -860,7 +976,9 @@ def run(ctx):
     r = common.rng("c18")
     ctx.cov["trusted_base"] = [
         "Lean 4.33.0 kernel; axioms within {propext, Classical.choice, Quot.sound}",
-        "hand-written model Model/LuaDispatch.lean of wrapl.wrap_function/do_function and of C switch/if semantics",
+        "hand-written model Model/LuaDispatch.lean of wrapl.wrap_function/do_function/wrap_functions, of C switch/if semantics, "
+        "of luaL_setfuncs (later entry wins) and of the userdata/metatable/__gc life cycle",
+        "Shroud's JSON dump (<library>.json) as the source of ast.name / LUA_name / LUA_name_impl / wrap flags for the registration tie",
         "tools/ccheck/luaemu: emulator of the Lua 5.3 C API subset (no Lua headers/interpreter installed); g++ 12",
         "tools/gen/luagen.py: the instrumented library is what the binding is linked against",
     ]
@@ -868,17 +986,21 @@ def run(ctx):
                        "several defaulted trailing parameters (histograms in notes: shape_hist, arity_hist); "
                        "per generated library (one fixed + seeded random): every Lua name's emitted function is parsed and compared "
                        "with the model's skeleton; the binding is compiled against the emulator and every name is called with every "
-                       "offered signature, one-tag-off variants, wrong counts and random shapes (methods also with wrong objects). "
+                       "offered signature, one-tag-off variants, wrong counts and random shapes (methods also with wrong objects, "
+                       "destructors twice on one object); the luaL_Reg tables are compared with the model's. "
                        "Non-trivial: a skeleton with a switch, or a call whose stack matches a signature; distinct = distinct "
                        "(kind, overload set, tag list).")
     ctx.assumptions += [
         "theorems are about the Lean model; the model is validated on generated libraries only",
         "Lua API behaviour is the emulator's (written from the Lua 5.3 manual), not a real interpreter's",
-        "argument-less calls are unique per name (C++ rejects f() as ambiguous otherwise; hypothesis hz of dispatch_correct)",
+        "argument-less signatures are unique per name (C++ rejects f() as ambiguous otherwise; hypothesis hz of dispatch_correct; "
+        "zero_arg_calls_both_run shows what the emitted code does without it)",
+        "names within one registration table are distinct in the generated libraries (lookupReg_later_wins characterises the rest)",
+        "which C++ overload the emitted call expression selects is g++'s decision, observed by the oracle",
     ]
     check_tables_ok = None
     stats = dict(groups=0, switch=0, single=0, gen_disagree=0, run_disagree=0, calls=0, matching=0, nonmatching=0,
-                 violations=0, known=0, libraries=0, wide_late_defaults=0, shape_hist={}, arity_hist={})
+                 violations=0, known=0, libraries=0, reg_tables=0, reg_entries=0, gc_twice=0, wide_late_defaults=0, shape_hist={}, arity_hist={})
     d0 = common.scratch()
     try:
         emu_o = build_emulator(d0)
